@@ -84,6 +84,63 @@ func C01(tier string) {
 		chains = chainWorkload(run.SeedV, tier, links, 0, 0, 3)
 		cfgs = StdCfgs(true)
 	}
+	if tier == "dbgbatch" {
+		// development aid: rebuild the triage2 batch that contains pair VERIF_DBG_PAIR and shrink it while the pair still misses
+		known := run.KnownSigs()
+		var ok []string
+		for _, l := range links {
+			if !known[l] {
+				ok = append(ok, l)
+			}
+		}
+		all := chainWorkload(run.SeedV, "triage2", ok, len(ok)*len(ok), 0, 3)
+		var pairs []gen.Chain
+		for _, ch := range all {
+			if len(ch.Links) == 2 {
+				pairs = append(pairs, ch)
+			}
+		}
+		target := os.Getenv("VERIF_DBG_PAIR")
+		bs := toBatches(pairs, 45)
+		var cur []gen.Chain
+		for _, b := range bs {
+			for _, ch := range b.Chains {
+				if gen.Key(ch.Links) == target {
+					cur = b.Chains
+				}
+			}
+		}
+		sc := StdCfgs(false)
+		opts := ChainOpts{Cfgs: []ChainCfg{sc[0]}, Repeat: 1}
+		misses := func(cs []gen.Chain, tag string) bool {
+			o := processBatch(run, tag, &gen.Batch{Chains: cs}, opts)
+			for _, m := range FindMisses(o, opts.Cfgs, nil) {
+				if gen.Key(m.Chain.Links) == target {
+					return true
+				}
+			}
+			return false
+		}
+		fmt.Println("batch size", len(cur), "misses:", misses(cur, "dbg0"))
+		step := 0
+		for i := 0; i < len(cur); {
+			if gen.Key(cur[i].Links) == target {
+				i++
+				continue
+			}
+			step++
+			cand := append(append([]gen.Chain{}, cur[:i]...), cur[i+1:]...)
+			if misses(cand, fmt.Sprintf("dbg%d", step)) {
+				cur = cand
+			} else {
+				i++
+			}
+		}
+		for _, ch := range cur {
+			fmt.Println("KEEP", ch.ID, gen.Key(ch.Links))
+		}
+		os.Exit(0)
+	}
 	if tier == "triage2" {
 		// development aid: every ordered pair of links that are not single-link known findings
 		known := run.KnownSigs()
